@@ -45,7 +45,7 @@ Section Run.
                else mkSt (in_set s) (in_pq s) (deadline s) 9 (touch_pc s) false (touch_has s) (touch_ok s) (requeued s)
         | 1 => if in_set s
                then mkSt false (in_pq s) (deadline s) 2 (touch_pc s) true (touch_has s) (touch_ok s) (requeued s)     (* its queue entry is already shifted: index -1 *)
-               else mkSt (in_set s) (in_pq s) (deadline s) 9 (touch_pc s) false (touch_has s) (touch_ok s) (requeued s)   (* not in flight: goto exit *)
+               else mkSt (in_set s) (in_pq s) (deadline s) 9 (touch_pc s) false (touch_has s) (touch_ok s) (requeued s)   (* not in flight: a stale entry, dropped; the round goes on with the next message *)
         | 2 => if recheck && negb (expired (deadline s))
                then mkSt true (in_pq s) (deadline s) 3 (touch_pc s) false (touch_has s) (touch_ok s) (requeued s)        (* pushInFlightMessage *)
                else mkSt (in_set s) (in_pq s) (deadline s) 9 (touch_pc s) false (touch_has s) (touch_ok s) true          (* c.put *)
